@@ -147,7 +147,15 @@ def judgeStep (p : Port) (j : J) (e : Ev) : J :=
   | .ask n =>
     let j := if n + 1 ≤ MAXT then j else j.fail s!"ask {n} exceeds the input buffer"
     match p with
-    | .telnet => if keepsPending (j.lastE - j.lastS) then j else { j with exact := false }
+    | .telnet =>
+      if keepsPending (j.lastE - j.lastS) then j
+      else
+        -- get_user_data discards the whole pending text; complete commands typed ahead go with it (known finding)
+        let lost := (expected p j.rx).length - j.delivered.length
+        let j := if j.exact ∧ lost > 0 then
+            j.fail s!"typeahead-discarded: {lost} complete command line(s) were pending when get_user_data discarded {j.lastE - j.lastS} bytes of unread text"
+          else j
+        { j with exact := false }
     | _ => j
   | .rx b => { j with rx := j.rx ++ b }
   | .cl b =>
